@@ -275,11 +275,16 @@ where
                             return Ok(());
                         }
                         let mut st = CaseStats::default();
+                        let case_started = Instant::now();
                         let r = match crate::engine::catch(|| f(&v, &mut st)) {
                             Ok(r) => r,
                             Err(p) => Err(Fail::Infra(format!("harness panic: {} at {}", p.message, p.location))),
                         };
                         done.fetch_add(1, Ordering::Relaxed);
+                        if case_started.elapsed().as_secs() >= 10 && std::env::var("VERIF_DEBUG_SLOW").is_ok() {
+                            let c: String = serde_json::to_string(&render(&v)).unwrap_or_default().chars().take(600).collect();
+                            eprintln!("SLOW CASE {:.1}s sub_evals={} : {c}", case_started.elapsed().as_secs_f64(), st.sub_evaluations);
+                        }
                         let mut acc = acc_cell.borrow_mut();
                         match r {
                             Ok(()) => {
